@@ -5,6 +5,7 @@ of the ``inv`` flag: the transform applied before the wrap must be B^-1 (as a
 right factor of the row vector), the wrap must be round-to-nearest on fractional
 coordinates, the transform after the wrap must be B^+1, and the norm is taken
 of a wrapped Cartesian vector.
+R19.2 the periodic distance keeps no table between calls (no remembered inverse box)
 """
 from __future__ import annotations
 
